@@ -997,7 +997,12 @@ class Run(RunBase):
                 # expansions that are identically zero, in whole or in part: the blank block matrix of the public
                 # T.zeros(), an exact a - a, and one with a single block zeroed -- zero is a value like any other
                 nsite = t.coefflist[0][2].shape[-1] if t.coefflist else 1
-                t = (T.zeros(-2, 2, (nsite, nsite)), t - t,
+                # (t - t only for expansions with one block per power n: the library's sum matches blocks on n alone,
+                # so arithmetic on a SEPARATED expansion -- several pure-l blocks per n -- yields duplicate (n, l)
+                # blocks, a malformed object that cannot be saved at all; the all-zero copy stands in for it there)
+                onepern = len(set(n for n, l, c in t.coefflist)) == len(t.coefflist)
+                t = (T.zeros(-2, 2, (nsite, nsite)),
+                     (t - t) if onepern else T([(n, l, c * 0) for n, l, c in t.coefflist]),
                      T([(n, l, (c * 0 if k == 0 else c)) for k, (n, l, c) in enumerate(t.coefflist)]))[(arg // 7) % 3]
                 self.probes["taylor-zero-blocks"] += 1
             if any(n < 0 for n, l, c in t.coefflist):
